@@ -11,18 +11,25 @@ MANIFEST = dict(
 
 MODULES = ["Gozod.Proofs.C13", "Gozod.Proofs.C13Split", "Gozod.Proofs.C13Typed", "Gozod.Proofs.C13Term"]
 THEOREMS = [
-    "Gozod.C13.c13_regex_quote", "Gozod.C13.c13_quote_fixed", "Gozod.C13.c13_quote_partial", "Gozod.C13.c13_quote_full_false",
-    "Gozod.C13.c13_tables_aligned", "Gozod.C13.c13_equiv_partial", "Gozod.C13.c13_typechecks_partial",
+    "Gozod.C13.c13_regex_quote", "Gozod.C13.c13_quote_fixed",
+    "Gozod.C13.c13_tables_aligned", "Gozod.C13.c13_gen_is_emit", "Gozod.C13.c13_typechecks", "Gozod.C13.c13_equiv_partial",
     "Gozod.C13.c13_split_partial", "Gozod.C13.c13_split_witnesses", "Gozod.C13.c13_split_full_false",
     "Gozod.C13.c13_parse_partial", "Gozod.C13.c13_parse_witnesses", "Gozod.C13.c13_parse_full_false",
     "Gozod.C13.c13_emit_reads_tagparser", "Gozod.C13.c13_emit_ws_invariant",
-    "Gozod.C13.wellTyped_of_allowed", "Gozod.C13.c13_table_closed", "Gozod.C13.c13_table_closed_containers", "Gozod.C13.c13_rows_judged",
-    "Gozod.C13.c13_illtyped_rows_are_open", "Gozod.C13.c13_rows_partial", "Gozod.C13.c13_lazy_self_reference_pinned", "Gozod.C13.c13_welltyped_partial", "Gozod.C13.c13_illtyped_witnesses",
+    "Gozod.C13.c13_writer_pinned",
+    "Gozod.C13.wellTyped_of_allowed", "Gozod.C13.c13_table_closed", "Gozod.C13.c13_table_closed_containers", "Gozod.C13.c13_kind_rows_read", "Gozod.C13.c13_rows_judged",
+    "Gozod.C13.c13_illtyped_rows_are_open", "Gozod.C13.c13_rows_partial", "Gozod.C13.c13_lazy_self_reference_pinned", "Gozod.C13.c13_welltyped_partial",
+    "Gozod.C13.c13_matrix_welltyped",
     "Gozod.C13.c13_welltyped_full_false", "Gozod.C13.c13_unused_import_witnesses", "Gozod.C13.c13_emitted_names",
-    "Gozod.C13.c13_term_acyclic", "Gozod.C13.c13_term_struct_graphs", "Gozod.C13.c13_term_diverges", "Gozod.C13.c13_term_full_false", "Gozod.C13.convF_mono",
+    "Gozod.C13.c13_term", "Gozod.C13.c13_term_prog", "Gozod.C13.convS_mono", "Gozod.C13.convV_measure_named", "Gozod.C13.convV_measure_child",
+    "Gozod.C13.c13_fix_agrees_acyclic",
 ]
+# LEGACY witnesses (about definitions nothing executes: the analyzer before 65a0069, the writer of round 4): audited for axioms, named as such
+LEGACY_THEOREMS = ["Gozod.C13.c13_term_diverges", "Gozod.C13.c13_term_full_false", "Gozod.C13.c13_term_acyclic", "Gozod.C13.c13_term_struct_graphs",
+                   "Gozod.C13.c13_illtyped_witnesses", "Gozod.C13.legacy_quote_full_false"]
+THEOREMS += LEGACY_THEOREMS
 W_MODULES = ["Gozod.Proofs.C13W"]
-W_THEOREMS = ["Gozod.C13W.c13_equiv_full_false", "Gozod.C13W.c13_typechecks_full_false", "Gozod.C13W.c13_class_witnesses", "Gozod.C13W.c13_open_compile_classes_exact"]
+W_THEOREMS = ["Gozod.C13W.c13_equiv_full_false", "Gozod.C13W.c13_class_witnesses", "Gozod.C13W.c13_open_compile_classes_exact"]
 
 GEN_GO = os.path.join(C.HARNESS, "cmd", "c13", "zz_matrix.go")
 GEN_LEAN = os.path.join(C.LEAN, "Gozod", "Gen", "GenTable.lean")
@@ -38,33 +45,16 @@ def go_matrix13(blocks):
     L.append("}")
     return "\n".join(L) + "\n"
 
-PRIMS = ["gozod.String()", "gozod.Int()", "gozod.Int8()", "gozod.Int16()", "gozod.Int32()", "gozod.Int64()", "gozod.Uint()", "gozod.Uint8()",
-         "gozod.Uint16()", "gozod.Uint32()", "gozod.Uint64()", "gozod.Float32()", "gozod.Float64()", "gozod.Bool()"]
-
-def lean_call(tok):
-    p = tok.split(":")
-    if len(p) == 2 and p[0] in ("Min", "Max", "Gt", "Gte", "Lt", "Lte") and re.fullmatch(r"-?\d+", p[1]):
-        return ".%s %s" % (p[0].lower(), p[1] if int(p[1]) >= 0 else "(%s)" % p[1])
-    if len(p) == 2 and p[0] == "Length" and re.fullmatch(r"\d+", p[1]): return ".length %s" % p[1]
-    if tok in ("Positive", "Negative", "NonNegative", "NonPositive"): return "." + tok.lower()
-    if tok == "Email": return ".email"
-    if tok == "URL": return ".url"
-    if tok == "Optional": return ".optional"
-    if tok == "Nilable": return ".nilable"
-    if p[0] == "Regex": return ".regex"
-    return ".other %s" % json.dumps(tok)
-
-def lean_ctor(tok):
-    if tok in PRIMS: return ".prim"
-    if tok == "gozod.UUID()": return ".uuid"
-    if tok == "gozod.URL()": return ".url"
-    if tok in ("gozod.FromStruct[Inner]()", "gozod.FromStruct[InnerT]()"): return ".fromStruct"
-    return ".other %s" % json.dumps(tok)
+def lean_runes(text):
+    return "[" + ", ".join(str(ord(ch)) for ch in text) + "]"
 
 def lean_gentable(blocks, rows):
+    """Gen/GenTable.lean: per matrix cell the compile status and the TEXT of the field's schema expression as found in the
+    generated file (code points). Nothing is interpreted here: Lean proves the text equal to the rendering of
+    GenEmit.emitChain on the cell's input (c13_gen_is_emit) and reads the meaning off that structure (GenSem.denoteChain)."""
     it = iter(rows)
     L = ["-- REGENERATED on every `./check C13` run by vlib/c13.py from the files gozodgen writes (parsed with go/parser). DO NOT EDIT.",
-         "import Gozod.Model.GenChain", "namespace Gozod.Gen", "open Gozod.Tags Gozod.GenChain", ""]
+         "import Gozod.Model.GenSem", "namespace Gozod.Gen", "open Gozod.Tags Gozod.GenChain Gozod.GenSem", ""]
     names = []
     for k, b in enumerate(blocks):
         base = b["fty"][4:] if b["ptr"] else b["fty"]
@@ -76,15 +66,13 @@ def lean_gentable(blocks, rows):
             row = next(it)
             if row["fty"] != b["fty"] or row["rules"] != "+".join(rules):
                 raise ValueError("gentable.json out of step with the matrix at %s %s" % (b["fty"], rules))
-            chain = row.get("chain") or []
-            ctor = lean_ctor(chain[0]) if chain else '.other ""'
-            calls = "[" + ", ".join(lean_call(t) for t in chain[1:]) + "]"
-            out.append("  ⟨%s, [%s], .%s, %s, %s⟩" % (fty, ", ".join(c06.lean_rule(r) for r in rules), row["status"], ctor, calls))
-        L.append("def genBlock%d : List GenCell := [" % k)
+            out.append("  ⟨[%s], .%s, %s⟩" % (", ".join(c06.lean_rule(r) for r in rules), row["status"], lean_runes(row.get("raw") or "")))
+        L.append("/-- %s -/" % b["gotype"])
+        L.append("def genBlock%d : GenBlock := ⟨%s, [" % (k, fty))
         L.append(",\n".join(out))
-        L.append("]"); L.append("")
+        L.append("]⟩"); L.append("")
         names.append("genBlock%d" % k)
-    L.append("def genTable : List (List GenCell) := [%s]" % ", ".join(names))
+    L.append("def genTable : List GenBlock := [%s]" % ", ".join(names))
     L += ["", "end Gozod.Gen"]
     return "\n".join(L) + "\n"
 
@@ -121,14 +109,33 @@ def lean_methodtable(mt):
     L += ["", "end Gozod.Gen"]
     return "\n".join(L) + "\n"
 
+KR_LEAN = os.path.join(C.LEAN, "Gozod", "Gen", "KindRows.lean")
+
+def lean_kindrows(rows):
+    """Gen/KindRows.lean: the kind x tag table of harness/cmd/c13/wide.go (kinds x kindTags), as source text: Go type
+    (SELF = the enclosing struct, written S) and tag. Lean reads both with the transcriptions (GenEmit.parseTy, GenSplit.genParseTag)."""
+    q = json.dumps
+    L = ["-- REGENERATED on every `./check C13` run by vlib/c13.py from harness/cmd/c13/wide.go (kinds x kindTags). DO NOT EDIT.",
+         "namespace Gozod.Gen", "", "/-- (field type as written in the source; the enclosing struct is `S`, tag text) -/",
+         "def kindRowsSrc : List (String × String) := ["]
+    L.append(",\n".join("  (%s, %s)" % (q(r["ty"].replace("SELF", "S"), ensure_ascii=True), q(r["tag"], ensure_ascii=True)) for r in rows))
+    L += ["]", "", "end Gozod.Gen"]
+    return "\n".join(L) + "\n"
+
 WF_LEAN = os.path.join(C.LEAN, "Gozod", "Gen", "WriterFacts.lean")
+# PINNED (round 4c): the variant of every decision that landed in /repo (d18b0f8 … 0a09f8c, 0bbda6e, 3c560ee, 5983d7f).
+# Gen/WriterFacts.lean is still regenerated from the tree, as an EXPECTATION: theorem C13.c13_writer_pinned proves it equal to
+# GenEmit.WriterFacts.head; model, driver and theorems use .head whatever the tree shows.
+WF_HEAD = dict(urlImport=False, specialOptNonPtrOnly=False, optionalOnEveryPtr=False, timePtr=True, sliceTyped=True, mapKeyMatch=True,
+               recordTyped=True, urlCtor=True, ruleApplies=True, boundArg=True, extraRules=True, jsonNumKinds=True,
+               multiName=True, tagLiteral=True, skipTestFiles=True)
 WF_FIELDS = ["urlImport", "specialOptNonPtrOnly", "optionalOnEveryPtr", "timePtr", "sliceTyped", "mapKeyMatch", "recordTyped", "urlCtor", "ruleApplies", "boundArg", "extraRules", "jsonNumKinds"]
 
 def open_compile_classes():
     """classes <c> of the lines `open: property=C13 key=wcompile:notypecheck:<c>:*` of known-findings.txt"""
     cls = []
     for ent in C.load_known("C13")[0]:
-        m = re.match(r"wcompile:notypecheck:(.*?):\*$", ent["key"])
+        m = re.match(r"wcompile:notypecheck:(.*?)(?::self-reference)?:\*$", ent["key"])
         if m and m.group(1) not in cls: cls.append(m.group(1))
     return cls
 
@@ -253,6 +260,9 @@ def wide_key(t, im, reason, unexplained=()):
     if d is None: return "wide:differ:" + tail
     rn = [n for n, _ in rules]
     if g == d:
+        if gotype == "*string" and "enum" in rn and g == "0" and r == "1":
+            # applyEnumConstraint replaces a *ZodString[string] only: on a pointer field FromStruct ignores the enum rule
+            return "wide:ref-wrong:ptr-enum-ignored:" + tail
         cls = "ptr" if gotype.startswith("*") else ("format+other" if gotype == "string" and len(rn) > 1 and any(n in ("email", "uuid", "url") for n in rn) else "other")
         return "wide:ref-wrong:%s:%s" % (cls, tail)
     cause = "other"
@@ -281,8 +291,10 @@ def make_key(doc, reasons=None, unexplained=()):
             return "%s:rule=%s,fty=%s" % (im, "+".join(names), t[2])
         if kind == "sample": return "sample:" + im
         if kind == "term":
-            # the model of typesToReflectType (GenTerm.convF) predicts the divergence: a named type that reaches itself without passing a struct
-            return "gozodgen:%s:%s" % (im, "recursive-named-type" if M == im else "not-predicted-by-model")
+            # C13.c13_term: the live conversion returns on every program — a crash / timeout is never predicted by the model
+            return "gozodgen:%s:termination" % im
+        if kind == "tconv": return "tconv:model-mismatch"
+        if kind == "regen": return "regen:%s:%s" % (im.split(":")[0], t[2])
         if kind == "split":
             why = (reasons or {}).get(C.op_body(op), "?")
             return ("gentag:model-mismatch:" if im != M else "gentag:") + why
@@ -299,6 +311,9 @@ def make_key(doc, reasons=None, unexplained=()):
                 fty = re.sub(r"\bS\d+\b", "SELF", t[2])
                 if cls.startswith("constant-not-representable:"): return "wcompile:notypecheck:%s:fty=%s,rules=%s" % (cls, fty, t[3])
                 if cls == "unused-import": return "wcompile:notypecheck:unused-import:rules=" + t[3]
+                if cls == "slice-cannot-infer-T" and "SELF" in fty:
+                    # gozod.Slice(gozod.Lazy(…)) for a slice of the enclosing struct: text pinned by writer_test.go, no type argument
+                    return "wcompile:notypecheck:slice-cannot-infer-T:self-reference:fty=%s" % fty
                 return "wcompile:notypecheck:%s:fty=%s" % (cls, fty)
             if cause == "other" and im != "ok" and re.search(r"(^|[,\s])(default|prefault)=", dec_runes(t[4])):
                 # a slice field whose default= is not a JSON array / a map field whose default= is not a JSON object:
@@ -346,6 +361,13 @@ def make_key(doc, reasons=None, unexplained=()):
                 return "gen-ptr-special-ctor-nil:fty=%s" % fty      # the UUID special case: .Optional() only for non-pointer fields
             dropped = [n for n in names if n != "required" and n not in emitted]
             if dropped:
+                if dropped[0] in ("uuid", "url") and "uuid" in names and "url" in names:
+                    # the first of uuid / url picks the constructor, the other format rule is left out
+                    return "gen-drops:second-format:rule=%s,fty=%s,tag=%s" % (dropped[0], fty, rn)
+                big = [r for r in rules.split("+") if r.split("=")[0] == dropped[0] and re.fullmatch(r"(min|max)=\d+", r) and int(r.split("=")[1]) > 2 ** 63 - 1]
+                if big:
+                    # a min / max bound beyond int64: boundArgument writes no call (the bound methods take an int64)
+                    return "gen-drops:bound-beyond-int64:rule=%s,fty=%s" % (dropped[0], fty)
                 return "gen-drops:rule=%s,fty=%s" % (dropped[0], fty)
             return "%s:rule=%s,fty=%s" % (who, rn, fty)
         return kind
@@ -359,6 +381,10 @@ def describe(op):
         return "smartSplitTagRules(tag) / (*StructAnalyzer).parseTagRules(tag) of cmd/gozodgen (tag = the Go string in the op comment) vs tagparser.New().ParseTagString(tag); runes are decimal code points joined by '.', rules name:param/param joined by ';'"
     if t[1] == "term":
         return "the package in the op comment (named types T<i>, struct Root; every struct field carries `gozod:\"required\"`); gozodgen on it with a 60 s limit; ok = exit status 0"
+    if t[1] == "regen":
+        return "the package in the op comment (one source file); gozodgen is run on the directory, the generated *_gen.go files are read, gozodgen is run on the directory AGAIN (it now contains its own output, which imports github.com/kaptinlin/gozod) and the files are read again; same = identical up to the `// Generated at:` line"
+    if t[1] == "tconv":
+        return "the package in the op comment; cmd/gozodgen's own StructAnalyzer.AnalyzePackage run on it (overlaid hook, GOZODGEN_VERIF_TYPES): the reflect.Type built for every field of Root and of the struct types T<i>, rendered by Kind (interface{} = any, the time.Time marker = time); model: GenTerm.convV (= what convS returns, theorem c13_term)"
     if t[1] == "texpr":
         return "type <Struct> struct { F <type> `gozod:\"<tag>\"` } (in the op comment); gozodgen on it; st = go/parser + `go build -gcflags=-e` on the written file, expr = the text written for field F; model: GenEmit.emitChain rendered, GenTyped.wellTyped against the regenerated Gen.methodTable"
     if t[1] in ("wcompile", "wexpr", "wsame", "wcell", "wbuild"):
@@ -503,7 +529,14 @@ def _run(res):
         wfacts = json.load(open(os.path.join(rundir, "writerfacts.json")))
         if c06.write_if_changed(WF_LEAN, lean_writerfacts(wfacts, open_compile_classes())):
             res.notes.append("Gen/WriterFacts.lean changed and was rewritten")
-        res.notes.append("writer facts (go/ast over cmd/gozodgen): " + ", ".join("%s=%s" % (k, "1" if v else "0") for k, v in sorted(wfacts.items())))
+        legacy = sorted(k for k, v in WF_HEAD.items() if bool(wfacts.get(k)) != v)
+        if legacy:
+            res.notes.append("WRITER FACTS DIFFER FROM THE PINNED HEAD VARIANT: %s — cmd/gozodgen shows the legacy variant of these decisions again; "
+                             "C13.c13_writer_pinned no longer checks, and the model (pinned to HEAD) predicts other text than the tree writes (texpr / cell ops below)" % ", ".join(legacy))
+        else:
+            res.notes.append("writer facts (go/ast over cmd/gozodgen): all 15 decisions show the landed variant (pinned: GenEmit.WriterFacts.head)")
+        if c06.write_if_changed(KR_LEAN, lean_kindrows(json.load(open(os.path.join(rundir, "kindrows.json"))))):
+            res.notes.append("Gen/KindRows.lean changed and was rewritten")
     except (OSError, ValueError, KeyError) as e:
         C.tie_broken(res, "translator C13/WriterFacts", str(e)); return res.finish()
     # 3. proofs
@@ -553,6 +586,8 @@ def _run(res):
                 if mst == "st=?" or ist == "st=noparse": tunmod += 1; mst = ist     # an argument that is not a classified literal / a file that does not parse
                 m = mst + " " + mex
             model[i] = m + "\t" + impl[i]
+        elif t[1] == "tconv":
+            model[i] = model[i] + "\t" + impl[i]     # model-vs-implementation: GenTerm.convV's result against the reflect.Type the real analyzer built
         elif t[1] == "wcell":
             reasons[C.op_body(o)] = model[i]
             r_impl = impl[i].split(" ")[1][2:]
